@@ -113,11 +113,13 @@ fn waker_thread(waker: Waker, plan: Vec<WakePlan>) {
         for _ in 0..p.pre_yields {
             hook(mon::YP_WAKER_IDLE);
         }
+        let before = mon::stamps_by_me();
         if p.by_value {
             waker.clone().wake();
         } else {
             waker.wake_by_ref();
         }
+        mon::wake_call_returned(before);
     }
 }
 
